@@ -217,13 +217,18 @@ def get_model(
             right_asset.type)
 
         if not assoc:
-            logger.error(
+            # Note: The query returns every pair of opposite relationships
+            # between two assets. If the assets are linked by more than one
+            # association (or to themselves) that includes pairs made up of
+            # relationships that belong to different associations. Those do
+            # not match anything and are skipped.
+            logger.debug(
                 'Failed to find ("%s", "%s", "%s", "%s")'
                 'association in language specification!',
                 left_asset.type, right_asset.type,
                 left_field, right_field
             )
-            return None
+            continue
 
         logger.debug('Found "%s" association.', assoc.name)
 
